@@ -187,7 +187,7 @@ class Report:
         path = os.path.join(REPLAYS, name)
         with open(path, "w") as f:
             json.dump(dict(property=self.prop, seed=self.seed, tier=self.tier, case=case, violations=r["viol"][:10],
-                           log=r.get("log"), sig=r.get("sig")), f, indent=1, ensure_ascii=False, default=str)
+                           log=r.get("log"), sig=r.get("sig"), recording=r.get("recording")), f, indent=1, ensure_ascii=False, default=str)
         return path
 
     def known_finding(self, text):
